@@ -88,6 +88,10 @@ pub mod log_specification {
     impl LogSpecification {
         pub closed spec fn mfs(&self) -> Seq<ModuleFilter> { self.module_filters@ }
         pub closed spec fn tf(&self) -> Option<Box<Regex>> { self.textfilter }
+    //@ fn src/log_specification.rs impl LogSpecification / fn builder
+    //@   ret r
+    //@   props C02
+    //@   ens[LogSpecification::builder.post] r.map() == Map::<Option<String>, LevelFilter>::empty().insert(None, LevelFilter::Off)
     }
     impl LogSpecBuilder {
         pub closed spec fn map(&self) -> Map<Option<String>, LevelFilter> { self.module_filters@ }
